@@ -300,6 +300,9 @@ func (a *APIClient) npmRequirements(root VersionKey, reqs *pb.Requirements_NPM) 
 
 func flattenNPMDeps(deps *pb.Requirements_NPM_Dependencies) []RequirementVersion {
 	var flattened []RequirementVersion
+	// aliases maps the keys of aliased dependencies to the real package
+	// names, for bundleDependencies, which lists keys.
+	aliases := make(map[string]string)
 	addDeps := func(ds []*pb.Requirements_NPM_Dependencies_Dependency, t dep.Type) {
 		for _, d := range ds {
 			typ := t.Clone()
@@ -313,6 +316,7 @@ func flattenNPMDeps(deps *pb.Requirements_NPM_Dependencies) []RequirementVersion
 					name = r[:i]
 					req = r[i+1:]
 				}
+				aliases[d.Name] = name
 			}
 			flattened = append(flattened, RequirementVersion{
 				VersionKey: VersionKey{
@@ -341,6 +345,13 @@ func flattenNPMDeps(deps *pb.Requirements_NPM_Dependencies) []RequirementVersion
 	bundleType := dep.NewType()
 	bundleType.AddAttr(dep.Scope, "bundle")
 	for _, name := range deps.GetBundleDependencies() {
+		typ := bundleType.Clone()
+		if real, ok := aliases[name]; ok {
+			// The entry names an aliased dependency by its key: it is
+			// a dependency on the actual package, known as the key.
+			typ.AddAttr(dep.KnownAs, name)
+			name = real
+		}
 		flattened = append(flattened, RequirementVersion{
 			VersionKey: VersionKey{
 				PackageKey: PackageKey{
@@ -350,7 +361,7 @@ func flattenNPMDeps(deps *pb.Requirements_NPM_Dependencies) []RequirementVersion
 				VersionType: Requirement,
 				Version:     "*",
 			},
-			Type: bundleType.Clone(),
+			Type: typ,
 		})
 	}
 	SortDependencies(flattened)
